@@ -45,4 +45,16 @@ def parseVerb (args : List String) : String :=
       s!"R {r} ; " ++ (if r == "0" then " / ".intercalate (out.events.map fmtEvent) else "")
   | _ => "BADARG"
 
+/-- PLEN: number of bytes a successful parse consumed (end of the root element and trailing PIs). -/
+def plenVerb (args : List String) : String :=
+  match args with
+  | [lang, cs, doc] =>
+    match (if doc == "-" then some [] else bytesOfHex doc) with
+    | none => "BADARG"
+    | some bs =>
+      let cfg : PCfg := { main := Gen.main, langForced := lang.toNat!, metaCharset := cs.toNat! }
+      let out := parse cfg bs
+      (match out.result with | .ok _ => s!"LEN {out.consumed}" | .error _ => "ERR")
+  | _ => "BADARG"
+
 end Driver
